@@ -9,6 +9,7 @@ import VProofs.Lemmas.CliSafe
 import VProofs.Lemmas.EvalCountChar
 import VProofs.Lemmas.EvalCountWord
 import VProofs.Lemmas.EvalCountLine
+import VProofs.Lemmas.CrossFront
 /-!
 # C20 — Command-line tools agree with the library, line by line
 
@@ -131,6 +132,19 @@ theorem C20_eval_line_wf (cfg : Cfg) (m : WModel) (hm : WFModel m) (ht : WFTags 
 example : EvalLineWF ⟨[B.N, B.W], [[none], [some ['x']], [none]], [B.W, B.W], [[none], [some ['x']], [none]]⟩ ∧
     wordCounts [⟨[B.N, B.W], [[none], [some ['x']], [none]], [B.W, B.W], [[none], [some ['x']], [none]]⟩] = (1, 3, 2) := by
   refine ⟨by unfold EvalLineWF; decide, by decide⟩
+
+/-! ## the two front ends segment alike -/
+
+/-- the `predict` tool and the Tantivy token stream (C16) segment alike: for a line without line-break characters the core
+pipeline on which the token stream is built (normalise, predict, line-break filter, configured filters) yields exactly the
+sentence whose boundaries the tool prints in its normalising mode (normalise, predict, configured filters) — in every case,
+including rejected input -/
+theorem C20_agrees_with_token_stream (cfg : Cfg) (m : WModel) (hm : WFModel m) (pt : Bool)
+    (p : Predictor) (hp : Predictor.new cfg m pt = .ok p) (filters : List PostFilter) (line : List Char)
+    (hnl : ∀ c ∈ line, isLinebreak c = false) :
+    pipeline p filters line =
+      bindR (Sentence.fromRaw (Gen.fullwidth line)) fun s0 => bindR (p.predict 0 s0) fun s1 => applyWsconst filters s1 :=
+  C20X.agrees cfg m hm pt p hp filters line hnl
 
 /-! ## non-vacuity: the well-formed model of `C01.lean` (it has a tag model, see `C06.lean`) through `predictCli`, two
 non-empty lines and an empty one -/
